@@ -10,7 +10,7 @@
    [e_itxs] of the inserted events: they are universally quantified. *)
 From Coq Require Import ZArith List Bool Sorted.
 From V Require Import Model.ZMap Model.Quorum Model.HgImpl Model.PeerSetSpec
-  Proofs.BlockInv Proofs.HgBlockFrames Proofs.PeerSetProofs.
+  Proofs.BlockInv Proofs.HgBlockFrames Proofs.PeerSetProofs Proofs.TidyRR.
 Import ListNotations.
 Open Scope Z_scope.
 
@@ -137,25 +137,34 @@ Theorem C10_peers_hash_source : forall st rr f st',
 Proof. exact get_frame_fresh. Qed.
 Print Assumptions C10_peers_hash_source.
 
-(* THE STATEMENT in its declarative form: the validator set of round r is genesis modified, in
-   block order, by exactly the accepted receipts of the delivered blocks with round-received + 6
-   <= r.  Proved under the named hypothesis that round-received increases strictly along the
-   delivered blocks (C02_rr_increasing_statement, being proved elsewhere; the C02 oracle checks
-   it on every history): without it two blocks could claim the same effective round and the
-   second change is dropped by SetPeerSet (the "already in the table" branch of [replay_step]). *)
+(* THE STATEMENT in its declarative form, for every reachable state and every round r >= 0: the
+   validator set of round r is genesis modified, in block order, by exactly the accepted receipts
+   of the delivered blocks with round-received + 6 <= r.  It rests on round-received increasing
+   strictly along the delivered blocks (C02_rr_increasing, Proofs/RoundOrder.v -- formerly a named
+   hypothesis of this theorem): otherwise two blocks could claim the same effective round and the
+   second change would be dropped by SetPeerSet (the "already in the table" branch of
+   [replay_step]). *)
 Definition rr_increasing (st : hg) : Prop := StronglySorted Z.lt (map b_rr (delivered st)).
+Theorem C10_rr_increasing_holds : forall self_ genesis oracle_ ops,
+  rr_increasing (hrun (init_hg self_ genesis oracle_) ops).
+Proof. exact reach_rr_increasing. Qed.
+Print Assumptions C10_rr_increasing_holds.
 
-Theorem C10_lookup_is_effective_prefix_partial : forall self_ genesis oracle_ ops r,
-  self_ <> -1 -> 0 <= r -> rr_increasing (hrun (init_hg self_ genesis oracle_) ops) ->
+Theorem C10_lookup_is_effective_prefix : forall self_ genesis oracle_ ops r,
+  self_ <> -1 -> 0 <= r ->
   get_peerset (hrun (init_hg self_ genesis oracle_) ops) r =
   Some (validators_at genesis (delivered (hrun (init_hg self_ genesis oracle_) ops)) r).
-Proof.
-  exact (fun s g o ops r H Hr S =>
-    eq_ind_r (fun t => ps_table_get r t = Some (validators_at g (delivered (hrun (init_hg s g o) ops)) r))
-             (lookup_is_prefix_replay g _ r S (c10inv_rr_nonneg _ _ (proj2 (hrun_c10inv s g o ops H))) Hr)
-             (f_equal fst (reach_table s g o ops H))).
-Qed.
-Print Assumptions C10_lookup_is_effective_prefix_partial.
+Proof. exact lookup_is_effective_prefix. Qed.
+Print Assumptions C10_lookup_is_effective_prefix.
+
+(* hence the "round already in the table" error branch of SetPeerSet (on which core.validators
+   would keep its OLD value) is dead for the blocks a node delivers: the effective round of a
+   new block is above every key of the table replayed from the earlier ones *)
+Theorem C10_set_peerset_never_collides : forall genesis ds d,
+  StronglySorted Z.lt (map b_rr (ds ++ [d])) -> 0 <= b_rr d ->
+  table_has (b_rr d + 6) (fst (replay_genesis genesis ds)) = false.
+Proof. exact replay_fresh_key. Qed.
+Print Assumptions C10_set_peerset_never_collides.
 
 (* membership gates, the parts local to one call: _witness (when it computes rather than reads
    its memo) answers true only for an event whose creator is in the peer set the table gives for
@@ -174,17 +183,13 @@ Theorem C10_quorum_gate : forall st x y ps,
 Proof. exact strongly_see_gate. Qed.
 Print Assumptions C10_quorum_gate.
 
-(* FULL STATEMENTS not proved here (kept visible, asserted nowhere):
-   - the unconditional form of the theorem above (needs rr_increasing for reachable states);
-   - the membership gates as invariants of the memo tables and of the fame / round-received
-     loops (C10_witness_gate and C10_quorum_gate are the per-call facts; that every memoised
-     witness flag and every quorum used by DecideFame / DecideRoundReceived was computed with
-     the set the FINAL table gives for that round needs the window property "no round >= rr+6
-     is divided before the block of round-received rr is committed", DESIGN.md stage D). *)
-Definition C10_lookup_is_effective_prefix_statement : Prop :=
-  forall self_ genesis oracle_ ops r, self_ <> -1 -> 0 <= r ->
-    get_peerset (hrun (init_hg self_ genesis oracle_) ops) r =
-    Some (validators_at genesis (delivered (hrun (init_hg self_ genesis oracle_) ops)) r).
+(* NOT PROVED here (not stated as a Definition either; asserted nowhere): the membership gates
+   as invariants of the memo tables and of the fame / round-received loops (C10_witness_gate and
+   C10_quorum_gate are the per-call facts; that every memoised witness flag and every quorum used
+   by DecideFame / DecideRoundReceived was computed with the set the FINAL table gives for that
+   round needs the window property "no round >= rr+6 is divided before the block of
+   round-received rr is committed", DESIGN.md stage D).  The former
+   C10_lookup_is_effective_prefix_statement is the theorem C10_lookup_is_effective_prefix. *)
 
 (* non-vacuity: one validator; a join accepted and a join refused in the first block (round
    received 1 => effective at 7), then a leave of the joiner and a re-join of the refused peer in
@@ -205,3 +210,12 @@ Example C10_example :
   option_map keys (get_peerset st 9) = Some [0; 1] /\
   rr_increasing st.
 Proof. vm_compute. repeat split; repeat constructor. Qed.
+(* the statement of C10_lookup_is_effective_prefix evaluated on that history, rounds 0..12: the
+   lookup and the declarative replay agree (sets [0] up to round 6, [0;1] for 7..9, [0;2] from 10) *)
+Example C10_example_prefix :
+  let st := hrun (init_hg 0 c10_g [7; 8; 9]) c10_ops in
+  map (fun r => option_map keys (get_peerset st r)) (zrange 0 12) =
+  map (fun r => Some (keys (validators_at c10_g (delivered st) r))) (zrange 0 12) /\
+  map (fun r => keys (validators_at c10_g (delivered st) r)) [0; 6; 7; 9; 10; 12] =
+  [[0]; [0]; [0; 1]; [0; 1]; [0; 2]; [0; 2]].
+Proof. vm_compute. split; reflexivity. Qed.
